@@ -478,7 +478,9 @@ def fresh_key(kind):
 STUCK = [False]      # a scheduled run left threads blocked (possibly holding factory locks): no further thread scenarios in this shard
 
 
-def scheduled_race(ctx, tz, kind, ntasks, policy, label, sigs, neighbours=0):
+def scheduled_race(ctx, tz, kind, ntasks, policy, label, sigs, neighbours=0, prewarm=False):
+    """prewarm: the key is requested (and kept referenced) before the tasks start, so that the tasks' requests are cache hits
+    - which neighbours' requests may evict from the bounded strong cache in the middle of a hit"""
     if STUCK[0]:
         return
     if kind == 'tzoffset':
@@ -501,6 +503,9 @@ def scheduled_race(ctx, tz, kind, ntasks, policy, label, sigs, neighbours=0):
         others = [(names[(COUNTER[0] + i + 1) % len(names)],) for i in range(neighbours)]
         req = lambda k: tz.gettz(k[0])
         lock_owner, lock_attr = tz.gettz, '_cache_lock'
+    held = req(key) if prewarm else None
+    if prewarm:
+        ctx.count('scheduled_runs_prewarmed')
     s = S.Sched(policy, factory_codes(tz), max_steps=60000)
     real = getattr(lock_owner, lock_attr)
     lock = S.ProxyLock(s, kind + '.lock')
@@ -513,6 +518,10 @@ def scheduled_race(ctx, tz, kind, ntasks, policy, label, sigs, neighbours=0):
             if neighbours and i % 2:
                 for k in others:
                     out.append(req(k))
+                if prewarm:
+                    # (this task only evicts: requesting the key again would put it back before the other task resumes)
+                    out.append(held)
+                    return out
             z = req(key)
             # a half-built zone would fail here
             z.utcoffset(D.datetime(2020, 1, 1))
@@ -549,7 +558,9 @@ def scheduled_race(ctx, tz, kind, ntasks, policy, label, sigs, neighbours=0):
             ctx.violation('request-raised-under-threads', case, 'T%d: %r' % (i, r))
             return
         objs.append(r[1][-1])
-    if len({id(o) for o in objs}) != 1:
+    if held is not None and any(o is not held for o in objs):
+        ctx.violation('identity-lost', case, 'the zone obtained before the tasks started is still referenced, a task got another object')
+    elif len({id(o) for o in objs}) != 1:
         ctx.violation('two-live-objects-for-one-key', case, 'tasks obtained %d different objects for %r' % (len({id(o) for o in objs}), key))
     elif req(key) is not objs[0]:
         ctx.violation('identity-lost', case, 'a later request returned another object')
@@ -890,6 +901,10 @@ def run(ctx):
                 ctx.count('systematic_runs')
             if not ctx.time_left():
                 break
+    # a hit on a key that other requests evict from the strong cache meanwhile: every single preemption of the hitting task
+    for kind in ('tzoffset', 'tzstr'):
+        for k in range(1 + ctx.shard, 90, ctx.nshards):
+            scheduled_race(ctx, tz, kind, 2, S.PlanPolicy({k: 'T1'}), 'plan1-prewarmed', sigs, neighbours=9, prewarm=True)
     n = 0
     while ctx.time_left() and n < (300 if ctx.tier == 'quick' else 15000):
         n += 1
@@ -929,7 +944,7 @@ def floors(agg, tier):
     for k, n in (('op_request', 5000), ('requests_with_live_object', 2000), ('op_fresh', 500), ('op_set_cache_size', 50), ('op_cache_clear', 30),
                  ('op_gc', 300), ('law_symmetric', 300), ('equal_pairs', 30), ('law_pickle', 60), ('law_copy', 15), ('law_deepcopy', 15),
                  ('scheduled_runs_tzoffset', 300), ('scheduled_runs_tzstr', 200), ('scheduled_runs_gettz', 200), ('scheduled_runs_gettz_clear', 300), ('scheduled_runs_gettz_trim', 300), ('scheduled_runs_drop_tzoffset', 100), ('scheduled_runs_drop_tzstr', 100), ('systematic_runs', 400),
-                 ('distinct_interleavings', 400), ('free_running_rounds', 200), ('failed_then_valid_rejected', 6)):
+                 ('distinct_interleavings', 400), ('free_running_rounds', 200), ('failed_then_valid_rejected', 6), ('scheduled_runs_prewarmed', 100)):
         if c.get(k, 0) < n:
             out.append('%s only %d (< %d)' % (k, c.get(k, 0), n))
     return out
